@@ -6,6 +6,7 @@ import json, subprocess
 claimed = json.load(open('/verif/claimed.json'))
 props = [json.loads(l) for l in open('/verif/properties.jsonl')]
 checks, na = [], []
+NA = {"C19": "Visualize harness (declared-function catalogue + DOT reader) not built yet; the DOT text goes through the engine's fmt model (S3) and carries no symbolic data, so this is the weakest fit for the technique (DESIGN.md C19)"}
 for p in props:
     pid = p['id']
     if pid in claimed:
@@ -26,7 +27,7 @@ for p in props:
             "technique": c.get("technique", "bounded symbolic execution of dig's go/ssa form (own engine gosym), path feasibility and assertions discharged by z3; counterexamples replayed natively"),
         })
     else:
-        na.append({"property_id": pid, "reason": "check not built yet in this session (engine and harness exist; profile pending)"})
+        na.append({"property_id": pid, "reason": NA.get(pid, "check not built yet")})
 m = {
     "version": 1,
     "setup_cmd": "cd /verif/engine && GOFLAGS=-mod=vendor GOPROXY=off GOSUMDB=off GOTOOLCHAIN=local go build -o /verif/bin/verif ./cmd/verif",
